@@ -386,6 +386,9 @@ func WriteOutput(path string, out *WorkerOutput) error {
 	return os.WriteFile(path, b, 0o644)
 }
 
+// PastDeadline reports whether the wall-clock budget is used up.
+func PastDeadline(d time.Time) bool { return !d.IsZero() && time.Now().After(d) }
+
 // SortedKeys returns the sorted keys of a string-keyed map.
 func SortedKeys[V any](m map[string]V) []string {
 	ks := make([]string, 0, len(m))
